@@ -3,7 +3,9 @@
 package http1
 
 import (
+	"github.com/cloudwego/hertz/internal/bytesconv"
 	zz "github.com/cloudwego/hertz/internal/zzverif"
+	"github.com/cloudwego/hertz/pkg/network/standard"
 )
 
 // zzCountResponses parses out as a sequence of well-formed responses.
@@ -69,7 +71,7 @@ func ZZ_C03_SRV() {
 // response is complete, carries Connection: close, and Serve ends the connection afterwards
 // without handling the next pipelined request.
 func ZZ_C18_H1() {
-	t := zz.Choose("tmpl", 6) // all templates but HEAD (the response counter assumes bodies)
+	t := []int{0, 1, 2, 3, 4, 5, 7, 8}[zz.Choose("tmpl", 8)] // all templates but HEAD (the response counter assumes bodies)
 	wire := append([]byte(zzTemplates[t].wire), zzSentinel...)
 	stream := zz.Choose("stream", 2) == 1
 	stopAt := zz.Int("stopAt") // index of the request during which shutdown begins (symbolic)
@@ -91,5 +93,20 @@ func ZZ_C18_H1() {
 		zz.Assert("no-request-handled-after-shutdown-began", len(r.seen) == stopAt+1)
 		zz.Assert("last-response-carries-connection-close", lastClose && lastStatus == 200)
 		zz.Assert("serve-returns-short-connection", r.err == errShortConnection)
+	}
+}
+
+// ZZ_C03_HexInt: chunk-size parser on symbolic text of up to L bytes: never panics, and never
+// reports a negative size (a negative size would defeat the body-size limit and crash later).
+func ZZ_C03_HexInt() {
+	l := zz.Range("len", 0, zz.Param("L", 17))
+	txt := zz.Bytes("sizetext", l)
+	wire := append(append([]byte(nil), txt...), "\r\nrest"...)
+	conn := standard.ZZNewConn(zz.NewNetConn(wire))
+	n, err := bytesconv.ReadHexInt(conn)
+	zz.Cover("reached-assert", true)
+	zz.Cover("parsed", err == nil)
+	if err == nil {
+		zz.Assert("chunk-size-non-negative", n >= 0)
 	}
 }
